@@ -18,10 +18,10 @@ theorem unwritable_regex_is_source :
 theorem include_depth_limit_is_source : FilesL.depthLimit = Generated.includeDepthLimit := by decide
 
 /-- every name the generated C++ uses unqualified inside its classes and function bodies is refused as a schema name
-    (defects D114, D155, D173: `native` / `little` / `big` / `indent` in the printer and the codec, the fixed-width
-    integer types, `encoded_byte_size` in every class) -/
+    by both C++ generators (defects D114, D155, D173: the fixed-width integer types, `encoded_byte_size` in every class;
+    `native` / `little` / `big` / `indent` of the printer and the codec are in the full codec's list since D202) -/
 theorem cpp_runtime_names_cover :
-    ["native", "little", "big", "indent", "encoded_byte_size", "size_t", "prophy", "std",
+    ["encoded_byte_size", "size_t", "prophy", "std",
      "int8_t", "int16_t", "int32_t", "int64_t", "uint8_t", "uint16_t", "uint32_t", "uint64_t"].all
       (fun n => Generated.cppRuntimeNames.contains n) = true := by decide
 
@@ -34,9 +34,11 @@ theorem cpp_raw_generated_names_is_source :
 theorem cpp_full_runtime_names_cover :
     ["array", "optional", "message", "message_impl", "encoder", "decoder", "printer", "align", "align_ptr", "alignment", "nearest",
      "byte_size", "int2type", "codec_traits", "print_traits", "do_encode", "do_decode", "do_print", "endianness", "detail",
-     "generated", "swap", "discriminator", "encode", "decode", "print", "get_byte_size"].all
+     "generated", "swap", "discriminator", "encode", "decode", "print", "get_byte_size", "native", "little", "big", "indent",
+     "do_decode_advance", "do_decode_align", "do_decode_greedy", "do_decode_in_place", "do_decode_resize", "encode_int", "decode_int",
+     "print_byte", "indent_t", "is_class_or_union", "decoder_greedy", "heap_value", "optional_detail", "to_literal"].all
       (fun n => Generated.cppFullRuntimeNames.contains n) = true ∧
-    ["array", "optional"].all (fun n => Generated.cppFullMemberNames.contains n) = true := by decide
+    ["array", "optional", "encode", "decode", "print", "get_byte_size"].all (fun n => Generated.cppFullMemberNames.contains n) = true := by decide
 
 /-- the names of the raw codec's runtime that its generated sources use unqualified are refused by `--cpp_out` (D195) -/
 theorem cpp_raw_runtime_names_cover :
